@@ -41,11 +41,21 @@ Parses(text, n) == IF text \in DOMAIN Control THEN Control[text] ELSE n
 ASSUME \A n \in Sigs : \A sp \in {"short", "prefixed"} :
           Spelling(n, sp) \in DOMAIN Control => (Control[Spelling(n, sp)] = n \/ Spelling(n, sp) = "STOP")
 
+\* some other signal, for the right-hand side of a mapping
+MapTo(n) == ((n * 7) % 31) + 1
+
 Cases ==
        {[kind |-> "parse", text |-> Spelling(n, sp), lettercase |-> c, expect |-> Parses(Spelling(n, sp), n)] :
             n \in Sigs, sp \in {"short", "prefixed", "number"}, c \in {"upper", "lower", "mixed"}}
   \cup {[kind |-> "parse", text |-> x, lettercase |-> c, expect |-> Control[x]] :
             x \in DOMAIN Control, c \in {"upper", "lower", "mixed"}}
+  \* --map-signal FROM:TO through the command line's own parser: both sides are signal texts, an empty TO
+  \* (-1) discards the signal
+  \cup {[kind |-> "map", from |-> Spelling(n, sp), to |-> Spelling(MapTo(n), sp2), lettercase |-> c,
+         expect |-> <<Parses(Spelling(n, sp), n), Parses(Spelling(MapTo(n), sp2), MapTo(n))>>] :
+            n \in Sigs, sp \in {"short", "prefixed", "number"}, sp2 \in {"short", "prefixed", "number"}, c \in {"upper", "lower"}}
+  \cup {[kind |-> "map", from |-> Spelling(n, sp), to |-> "", lettercase |-> "upper",
+         expect |-> <<Parses(Spelling(n, sp), n), -1>>] : n \in Sigs, sp \in {"short", "prefixed", "number"}}
   \cup {[kind |-> "display_custom", n |-> n, expect |-> n] : n \in Sigs}
   \cup {[kind |-> "display_first", name |-> f, expect |-> FirstClass[f]] : f \in DOMAIN FirstClass}
   \cup {[kind |-> "from_number", n |-> n, expect |-> n] : n \in Sigs}
